@@ -78,3 +78,8 @@ BUILT['C04'] = {
     'level': 'Runtime monitoring: each generated layer set (numbers chosen so that $match/$delete patterns, $repeat counts and useless-override checks depend on numeric equality) is written in every JSON/YAML/TOML assignment by the harness\'s own serializers and evaluated by the real library; all assignments must agree on success and give byte-identical json/yaml/toml output, and the typed result must equal the reference model on the logical trees (integers exact, doubles bit-identical). Holds for the layer sets produced only.',
     'note': 'Trusted: own serializers (validated against independent decoders), stream/merge model, worker value encoding (int vs float vs other Go types).',
 }
+BUILT['C08'] = {
+    'technique': 'crash/termination monitors at the process boundary and in-process, termination decided by the verifStep hook\'s logical step budget; hostile structure-aware, byte-mutated and cycle-zoo workloads; /dev/full fault injection',
+    'level': 'Runtime monitoring: hostile generated documents (every directive at every position with every argument type, mutated; 1-3 layers), byte-mutated JSON/TOML and token-mutated YAML seeds (generated, tests/*, FuzzParser corpus), a zoo of reference/interpolation cycles and every $parent graph over <= 3 files are run through the library (worker child, panics recovered, deaths and step-budget overruns observed) and the bkl/bkld/bkli/bklr binaries; status must be 0 with complete output equal to the library\'s, or 1 with empty stdout and a diagnostic; never a panic, fatal error, signal or more than 2,000,000 hook steps; cycles must be reported as errors; a full output device must be reported. Holds for the executions produced only.',
+    'note': 'Trusted: verifStep hook placement (process1, process2, process2String, merge, get, loadFileAndParents), generator bounds ($repeat <= 6) that keep legitimate work far below the budget. TOML output of non-map documents and the empty file left by a failed -o are not judged.',
+}
